@@ -80,6 +80,7 @@ type c05Case struct {
 	Mult   []int  `json:"mult,omitempty"`  // small: multiplicity (0..2) of each universe signature
 	Order  int    `json:"order,omitempty"` // small: 0 = grouped ascending, 1 = two passes (descending, then ascending)
 	Meta   int    `json:"meta"`            // metadata shape: 0, 1 or 3 pairs
+	Pair   int    `json:"pair,omitempty"`  // small: which prefix pair the universe uses (c05Pairs)
 	Pop    string `json:"pop,omitempty"`   // pop: name of the populations layout
 	MaxP   int    `json:"max_p,omitempty"`
 }
@@ -293,26 +294,30 @@ func c05Round(R *vkit.Report, c c05Case, scope string, puts [][64]byte, queries 
 	return true
 }
 
-// universe: n signatures alternating between two prefixes whose byte order matters (1 and 0xfffe)
-func c05Universe(n int) [][64]byte {
+// c05Pairs: the two prefixes a small universe alternates between. Pair 0 has prefixes whose byte order
+// matters (1 and 0xfffe); pair 1 is the first and the last prefix of the table (0 and 0xffff), whose
+// buckets sit at the two ends of the file (the first bucket is at offset 0 after the header).
+var c05Pairs = [][2]uint16{{0x0001, 0xfffe}, {0x0000, 0xffff}}
+
+// universe: n signatures alternating between the two prefixes of the pair
+func c05Universe(n, pair int) [][64]byte {
 	out := make([][64]byte, n)
 	for i := range out {
-		p := uint16(0x0001)
-		if i%2 == 1 {
-			p = 0xfffe
-		}
-		out[i] = c05Sig(p, i/2)
+		out[i] = c05Sig(c05Pairs[pair][i%2], i/2)
 	}
 	return out
 }
 
-// signatures that are never added: byte-swapped prefixes, first and last prefix, and one more per used prefix
-func c05Probes() [][64]byte {
-	return [][64]byte{c05Sig(0x0100, 0), c05Sig(0xfeff, 0), c05Sig(0x0000, 0), c05Sig(0xffff, 0), c05Sig(0x0001, 1000), c05Sig(0xfffe, 1000)}
+// signatures that are never added: byte-swapped prefixes, the prefixes of the other pair, and one more
+// per used prefix
+func c05Probes(pair int) [][64]byte {
+	other := c05Pairs[1-pair]
+	return [][64]byte{c05Sig(0x0100, 0), c05Sig(0xfeff, 0), c05Sig(other[0], 0), c05Sig(other[1], 0),
+		c05Sig(c05Pairs[pair][0], 1000), c05Sig(c05Pairs[pair][1], 1000)}
 }
 
 func c05RunSmall(R *vkit.Report, c c05Case) {
-	uni := c05Universe(len(c.Mult))
+	uni := c05Universe(len(c.Mult), c.Pair)
 	var puts [][64]byte
 	if c.Order == 0 {
 		for i, m := range c.Mult {
@@ -332,7 +337,7 @@ func c05RunSmall(R *vkit.Report, c c05Case) {
 			}
 		}
 	}
-	queries := append(append([][64]byte{}, uni...), c05Probes()...)
+	queries := append(append([][64]byte{}, uni...), c05Probes(c.Pair)...)
 	nonTrivial := false
 	perPrefix := map[uint16]int{}
 	for i, m := range c.Mult {
@@ -382,16 +387,18 @@ func c05PopLayout(name string, maxP int) []c05Layout {
 	var out []c05Layout
 	switch name {
 	case "all":
-		for p := 0; p <= maxP; p++ {
+		out = append(out, c05Layout{0, maxP + 1, false}) // the first bucket of the file is populated too
+		for p := 1; p <= maxP; p++ {
 			out = append(out, c05Layout{uint16(p), p, p%7 == 3})
 		}
 		for i, n := range c05PowerPops() {
 			out = append(out, c05Layout{uint16(0xff00 + i), n, false})
 		}
 	case "mirror":
-		for p := maxP; p >= 0; p-- {
+		for p := maxP; p >= 1; p-- {
 			out = append(out, c05Layout{uint16(65535 - p), p, true})
 		}
+		out = append(out, c05Layout{65535, maxP + 1, true}) // and so is the last one
 	}
 	return out
 }
@@ -578,22 +585,25 @@ func TestVerif_C05(t *testing.T) {
 			}
 			for order := 0; order < orders; order++ {
 				for meta := 0; meta < 3; meta++ {
-					if !next() {
-						continue
-					}
-					if R.Expired() {
-						R.Note("[%s] deadline reached at case %d", c05Format, idx)
-						return
-					}
-					c := c05Case{Format: c05Format, Part: "small", Mult: mult, Order: order, Meta: meta}
-					c05RunSmall(R, c)
-					if code%97 == 50 && order == 1 && meta == 2 {
-						R.Sample(c)
+					for pair := range c05Pairs {
+						if !next() {
+							continue
+						}
+						if R.Expired() {
+							R.Note("[%s] deadline reached at case %d", c05Format, idx)
+							return
+						}
+						c := c05Case{Format: c05Format, Part: "small", Mult: mult, Order: order, Meta: meta, Pair: pair}
+						c05RunSmall(R, c)
+						if code%97 == 50 && order == 1 && meta == 2 {
+							R.Sample(c)
+						}
 					}
 				}
 			}
 		}
 		R.Bounds[c05Format+":universe_signatures"] = uniSize
+		R.Bounds[c05Format+":prefix_pairs"] = "0x0001/0xfffe and 0x0000/0xffff"
 		R.Bounds[c05Format+":multiplicity"] = "0..2"
 		R.Bounds[c05Format+":insertion_orders"] = 2
 		R.Bounds[c05Format+":metadata_shapes"] = "0, 1, 3 pairs"
